@@ -8,6 +8,7 @@ import (
 	"os"
 	"path/filepath"
 	"reflect"
+	"strings"
 	"time"
 
 	"github.com/anacrolix/dht/v2"
@@ -574,9 +575,21 @@ func c15decoders(c *evid.Ctx) {
 		"CompactInfohashes":    func() bencode.Unmarshaler { return new(krpc.CompactInfohashes) },
 	}
 	g := &hostile.Gen{R: r}
+	listOfInts := map[string]bool{}
 	inputs := [][]byte{[]byte(""), []byte("e"), []byte("le"), []byte("de"), []byte("i1e"), []byte("0:"), []byte("20:short"),
 		[]byte("li201ee"), []byte("l3:abce"), []byte("li1ei2ee"), []byte("l1:a1:be"), []byte("lli1eee"), []byte("ld1:ai1eee"),
 		[]byte("li99999999999999999999e1:ae"), []byte("19:aaaaaaaaaaaaaaaaaaa"), []byte("21:aaaaaaaaaaaaaaaaaaaaa"), []byte("20:aaaaaaaaaaaaaaaaaaaa")}
+	// A compact list is a string. A bencoded list of small integers with the right count is not.
+	for _, elem := range []int{6, 18, 20, 26, 38} {
+		for _, k := range []int{1, 2} {
+			b := []byte("l")
+			for i := 0; i < elem*k; i++ {
+				b = append(b, fmt.Sprintf("i%de", r.Intn(256))...)
+			}
+			inputs = append(inputs, append(b, 'e'))
+			listOfInts[string(append(b, 'e'))] = true
+		}
+	}
 	more := c.Scale(2000, 100000)
 	for i := 0; i < more; i++ {
 		b, _ := g.Next()
@@ -599,6 +612,9 @@ func c15decoders(c *evid.Ctx) {
 			if p != nil {
 				c.Violation("decoder-panics:"+name+".UnmarshalBencode", fmt.Sprintf("input %q: %v", truncBytes(in), p), nil)
 				continue
+			}
+			if err == nil && listOfInts[string(in)] && strings.HasPrefix(name, "Compact") {
+				c.Violation("compact-decoder-accepts-a-list-of-integers:"+name, fmt.Sprintf("%s.UnmarshalBencode accepted %q, which is not a string", name, truncBytes(in)), nil)
 			}
 			if name == "ID" && err == nil {
 				// Accepted: must have been a 20-byte string, and re-encode to it.
